@@ -37,7 +37,7 @@ fn main() {
             let r = std::panic::catch_unwind(|| {
                 let (dbs, repl_rx, sup_rx) = node::make_dbs(&dir, nundb::bo::ClusterRole::Primary, false);
                 nundb::bo::Databases::load_all_dbs(&dbs);
-                let n = node::Node { dbs, repl_rx, sup_rx, sessions: std::collections::BTreeMap::new(), dir: dir.clone(), notices: std::collections::HashMap::new(), last_dump: vec![] };
+                let n = node::Node { repl_fut: None, repl_in: None, dbs, repl_rx, sup_rx, sessions: std::collections::BTreeMap::new(), dir: dir.clone(), notices: std::collections::HashMap::new(), last_dump: vec![] };
                 n.dump()
             });
             match r {
